@@ -256,3 +256,4 @@ Proof.
 Qed.
 
 End Proofs.
+Arguments end_cfg {St V E}.
